@@ -287,18 +287,22 @@ class Refs(object):
             al = self.al
             xs = [numpy.array(v, dtype=float) for v in step['x']]
             grads = []
-            for j, xj in enumerate(xs):
-                seeds = []
-                for i, xi in enumerate(xs):
-                    if i == j:
-                        seeds.append(al.UTPM.init_jacobian(xi))
-                    else:
-                        d = numpy.zeros((2, len(xj), len(xi)))
-                        d[0, :, :] = xi
-                        seeds.append(al.UTPM(d))
-                y = self.direct(prog, seeds)[0]
-                grads.append(numpy.asarray(al.UTPM.extract_jacobian(y), dtype=float).reshape(len(xj)))
-            out['forward'] = enc(grads)
+            try:
+                for j, xj in enumerate(xs):
+                    seeds = []
+                    for i, xi in enumerate(xs):
+                        if i == j:
+                            seeds.append(al.UTPM.init_jacobian(xi))
+                        else:
+                            d = numpy.zeros((2, len(xj), len(xi)))
+                            d[0, :, :] = xi
+                            seeds.append(al.UTPM(d))
+                    y = self.direct(prog, seeds)[0]
+                    grads.append(numpy.asarray(al.UTPM.extract_jacobian(y), dtype=float).reshape(len(xj)))
+                out['forward'] = enc(grads)
+            except Exception as e:
+                # forward mode itself fails on this program: no truth to compare with
+                self.notes.append('forward truth (list) raised: %s' % type(e).__name__)
             return out
         scalar = len(prog['out_shapes'][0]) == 0
         if name == 'jacobian_utpm':
